@@ -207,7 +207,7 @@ def run_case(ns, ctx, case):
     else:
         rng = random.Random(case["seed"])
         pools = [list(range(-3, 8)), [0.5, 1.5, -2.25, 3.0, 10.0], ["a", "b", "zz", "c", "B"], [10, 20, 40, 70], [3, 1, 2], [-1, 1], [-2, 0, 2], [-1, 0, 2],
-                 [-3, -1], [0, 1, 2]]
+                 [-3, -1], [0, 1, 2], [1000001.0, 1000002.0, 1000003.0], [202401.0, 202402.0], [0.0, 1e-9, 1.0], [True, False]]
         for k in range(case["count"]):
             pool = pools[k % len(pools)]
             m = rng.randint(0, 9)
